@@ -105,6 +105,10 @@ impl<T> Vec<T> {
             // since the caller must only guarantee that he has observed active on any thread
             // but the current thread might still have an old value cached (although unlikely)
             let _ = (*entry).active.load(Ordering::Acquire);
+            #[cfg(nucleo_verif)]
+            if !(*entry).active.load(Ordering::Relaxed) {
+                crate::verif::uninit_read(index);
+            }
             Entry::read(entry, self.columns)
         }
     }
